@@ -301,3 +301,187 @@ func init() {
 			return out, tags
 		}})
 }
+
+// ---------------------------------------------------------------- c13.demux
+
+// c13Frame cuts the responder's stdout and stderr into records in a random conforming way:
+// any record sizes, any padding, any interleaving, empty stderr terminator or not.
+func c13Frame(r *hx.Rng, id uint16, stdout, stderr []byte, style int) []byte {
+	var raw []byte
+	pad := func() int {
+		switch style % 4 {
+		case 0:
+			return 0
+		case 1:
+			return r.Intn(8)
+		case 2:
+			return hx.Pick(r, []int{0, 1, 7, 8, 255})
+		}
+		return r.Intn(256)
+	}
+	chunk := func(n int) int {
+		if n == 0 {
+			return 0
+		}
+		switch (style / 4) % 4 {
+		case 0:
+			return n // everything at once
+		case 1:
+			return 1 // byte by byte
+		case 2:
+			return 1 + r.Intn(min(n, 5))
+		}
+		return 1 + r.Intn(n)
+	}
+	for len(stdout) > 0 || len(stderr) > 0 {
+		if len(stderr) > 0 && (len(stdout) == 0 || r.Chance(1, 3)) {
+			k := chunk(len(stderr))
+			raw = append(raw, fcgiRec(7, id, stderr[:k], pad())...)
+			stderr = stderr[k:]
+			continue
+		}
+		k := chunk(len(stdout))
+		raw = append(raw, fcgiRec(6, id, stdout[:k], pad())...)
+		stdout = stdout[k:]
+	}
+	if r.Chance(1, 2) {
+		raw = append(raw, fcgiRec(7, id, nil, pad())...)
+	}
+	raw = append(raw, fcgiRec(6, id, nil, pad())...)
+	return append(raw, fcgiRec(3, id, []byte{0, 0, 0, 0, 0, 0, 0, 0}, 0)...)
+}
+
+func c13ShowResp(c *fastcgi.FCGIClient, raw []byte) string {
+	resp, err := c.Request(map[string]string{}, nil)
+	if err != nil {
+		if _, ok := err.(*strconv.NumError); ok {
+			return "err:status"
+		}
+		return "err:" + err.Error()
+	}
+	body, berr := io.ReadAll(resp.Body)
+	fin := "eof"
+	switch {
+	case berr == io.ErrUnexpectedEOF:
+		fin = "ueof"
+	case berr != nil && strings.Contains(berr.Error(), "invalid header version"):
+		fin = "badver"
+	case berr != nil:
+		fin = "other:" + berr.Error()
+	}
+	var keys []string
+	for k := range resp.Header {
+		keys = append(keys, k)
+	}
+	sortStrings(keys)
+	var hs []string
+	for _, k := range keys {
+		for _, v := range resp.Header[k] {
+			hs = append(hs, hx.HS(k)+":"+hx.HS(v))
+		}
+	}
+	return fmt.Sprintf("st=%d;tx=%s;h=%s;body=%s;fin=%s;stderr=%s", resp.StatusCode, hx.HS(resp.Status),
+		strings.Join(hs, ","), hx.H(body), fin, hx.H(c.VerifStderr()))
+}
+
+func sortStrings(s []string) {
+	for i := 1; i < len(s); i++ {
+		for j := i; j > 0 && s[j] < s[j-1]; j-- {
+			s[j], s[j-1] = s[j-1], s[j]
+		}
+	}
+}
+
+func c13DemuxGen(g *hx.Gen) {
+	r := g.Rng
+	headerLines := []string{"Content-Type: text/html", "content-type: text/plain; charset=utf-8", "X-Powered-By: PHP/8", "x-a-b: 1", "Set-Cookie: a=b", "Set-Cookie: c=d; Path=/",
+		"Location: /next", "X-Empty:", "X-Sp:   padded  ", "Content-Length: 3", "STATUS-X: no", "a: b"}
+	statusLines := []string{"", "", "Status: 200 OK", "Status: 404 Not Found", "Status: 500", "status: 302 Found", "Status: 201  Two  Spaces", "Status:", "Status: 099 x", "STATUS: 403 Forbidden"}
+	bodies := []string{"", "x", "hello\n", "\r\n\r\n", "Status: 500\r\n\r\n", "a\x00b\xff", strings.Repeat("0123456789", 30)}
+	mk := func() []byte {
+		var b strings.Builder
+		nl := hx.Pick(r, []string{"\r\n", "\r\n", "\n"})
+		st := hx.Pick(r, statusLines)
+		lines := []string{}
+		for k := r.Intn(4); k > 0; k-- {
+			lines = append(lines, hx.Pick(r, headerLines))
+		}
+		if st != "" {
+			i := r.Intn(len(lines) + 1)
+			lines = append(lines[:i:i], append([]string{st}, lines[i:]...)...)
+		}
+		for _, l := range lines {
+			b.WriteString(l + nl)
+		}
+		b.WriteString(nl)
+		b.WriteString(hx.Pick(r, bodies))
+		return []byte(b.String())
+	}
+	stderrs := []string{"", "", "PHP Warning: x\n", "e", strings.Repeat("E", 70)}
+	// every framing style for a fixed small response
+	fixed := []byte("Status: 404 Not Found\r\nContent-Type: text/plain\r\n\r\nnot here")
+	for style := 0; style < 16; style++ {
+		for _, se := range []string{"", "warn\n"} {
+			g.Case(hx.H(fixed), hx.HS(se), hx.H(c13Frame(r, 1, fixed, []byte(se), style)))
+		}
+	}
+	n := 700
+	if g.Thorough() {
+		n = 20000
+	}
+	for i := 0; i < n; i++ {
+		out, se := mk(), []byte(hx.Pick(r, stderrs))
+		g.Case(hx.H(out), hx.H(se), hx.H(c13Frame(r, 1, out, se, r.Intn(16))))
+	}
+	// large bodies: records of the maximum size, and a body spanning many records
+	big := append([]byte("Content-Type: a/b\r\n\r\n"), []byte(c13Filler(3, 70000))...)
+	var raw []byte
+	rest := big
+	for len(rest) > 0 {
+		k := min(len(rest), 65535)
+		raw = append(raw, fcgiRec(6, 1, rest[:k], 255)...)
+		rest = rest[k:]
+	}
+	raw = append(raw, fcgiRec(6, 1, nil, 0)...)
+	raw = append(raw, fcgiRec(3, 1, make([]byte, 8), 0)...)
+	g.Case(hx.H(big), "", hx.H(raw))
+}
+
+func init() {
+	hx.Register(&hx.Stream{ID: "C13", Name: "c13.demux", Gen: c13DemuxGen,
+		Eval: func(f []string) (string, []string) {
+			raw := hx.UnH(f[2])
+			out := c13Guard(func() string {
+				c := fastcgi.VerifNewClient(&fcgiRWC{r: bytes.NewReader(raw)}, 1)
+				return c13ShowResp(c, raw)
+			})
+			recs, _ := fcgiSplit(raw)
+			nOut, nErr := 0, 0
+			for _, rc := range recs {
+				if rc.typ == 6 && len(rc.content) > 0 {
+					nOut++
+				}
+				if rc.typ == 7 && len(rc.content) > 0 {
+					nErr++
+				}
+			}
+			tags := []string{}
+			switch {
+			case nOut > 1 && nErr > 0:
+				tags = append(tags, "split-stdout+stderr")
+			case nOut > 1:
+				tags = append(tags, "split-stdout")
+			case nErr > 0:
+				tags = append(tags, "stderr")
+			default:
+				tags = append(tags, "single-record")
+			}
+			if strings.Contains(strings.ToLower(hx.UnHS(f[0])), "status:") {
+				tags = append(tags, "status-header")
+			}
+			if strings.HasPrefix(out, "PANIC") {
+				tags = append(tags, "panic")
+			}
+			return out, tags
+		}})
+}
